@@ -16,7 +16,8 @@ import (
 	"verif/harness/run"
 )
 
-var c11Runes = []rune{'a', 'b', 'c', 'a', 'b', 'é', 'ß', 'ж', '日', '本', '😀', '𝒜', ' ', '0', ',', '́', '�'}
+// (with the first and last code point of every UTF-8 length)
+var c11Runes = []rune{'a', 'b', 'c', 'a', 'b', 'é', 'ß', 'ж', '日', '本', '😀', '𝒜', ' ', '0', ',', '́', '�', 0x7f, 0x80, 0x7ff, 0x800, 0xd7ff, 0xe000, 0xffff, 0x10000, 0x10ffff}
 
 func mixedString(t *rapid.T, maxLen int) string {
 	n := rapid.IntRange(0, maxLen).Draw(t, "slen")
@@ -140,7 +141,13 @@ func c11Op(t *rapid.T, str func(max int) string, sub func(s string, max int) str
 		}
 		e = ast.Call(op, args...)
 	case "pad_left", "pad_right":
-		w := ast.Lit(jv.VInt(int64(rapid.IntRange(0, n+4).Draw(t, "width"))))
+		width := rapid.IntRange(0, n+4).Draw(t, "width")
+		if rapid.IntRange(0, 15).Draw(t, "widepad") == 0 {
+			// widths around buffer sizes (2^12 .. 2^16 bytes) divided by the
+			// 1, 2, 3 and 4 bytes of a pad character
+			width = gen.Pick(t, "bigwidth", []int{100, 1023, 1366, 2049, 2731, 2732, 4097, 5462, 6827, 6829, 8193, 10923, 10925, 16385, 21846, 21847, 32769})
+		}
+		w := ast.Lit(jv.VInt(int64(width)))
 		args := []ast.Arg{ast.A(S), ast.A(w)}
 		if rapid.Bool().Draw(t, "haspad") {
 			pad := string([]rune{gen.Pick(t, "padr", c11Runes)})
